@@ -501,13 +501,12 @@ func init() {
 		if !st.Closed {
 			e.unsupported("Walk over open-world store " + coll.Name + " (declare slots with verifConfig(\"store:" + coll.Name + "\", n))")
 		}
-		var prefix []*Term
-		desc := false
-		if r := rangerOf(e, a[2]); r != nil {
-			if pv, ok := r.F["prefix"]; ok {
-				prefix = e.flattenKey(pv)
-			}
-			desc = r.F["desc"] != nil
+		lo, hi, desc, rerr := e.rangeBounds(a[2])
+		if rerr != nil {
+			return []Value{rerr}
+		}
+		if bad := e.invalidRange(lo, hi, coll.KT); bad != nil && e.decideBool(bad) {
+			return []Value{errIface("cosmossdk.io/collections.ErrInvalidIterator", StrLit("collections: invalid iterator"))}
 		}
 		snap := append([]*Entry{}, st.Entries...)
 		if desc {
@@ -519,8 +518,8 @@ func init() {
 			if !en.Present {
 				continue
 			}
-			if prefix != nil {
-				if !e.decideBool(keysEq(en.Key[:len(prefix)], prefix)) {
+			if lo != nil || hi != nil {
+				if !e.decideBool(e.inRange(en.Key, lo, hi, coll.KT)) {
 					continue
 				}
 			}
@@ -552,10 +551,25 @@ func init() {
 		if !st.Closed {
 			e.unsupported("Clear of open-world store " + coll.Name)
 		}
-		if rangerOf(e, a[2]) != nil {
-			e.unsupported("Clear with a range")
+		lo, hi, _, rerr := e.rangeBounds(a[2])
+		if rerr != nil {
+			return []Value{rerr}
 		}
-		st.Entries = nil
+		if lo == nil && hi == nil {
+			st.Entries = nil
+			return []Value{nilErr()}
+		}
+		if bad := e.invalidRange(lo, hi, coll.KT); bad != nil && e.decideBool(bad) {
+			return []Value{errIface("cosmossdk.io/collections.ErrInvalidIterator", StrLit("collections: invalid iterator"))}
+		}
+		var keep []*Entry
+		for _, en := range st.Entries {
+			if en.Present && e.decideBool(e.inRange(en.Key, lo, hi, coll.KT)) {
+				continue
+			}
+			keep = append(keep, en)
+		}
+		st.Entries = keep
 		return []Value{nilErr()}
 	}
 	// Item
@@ -595,39 +609,179 @@ func init() {
 		e.setEntry(ctxOf(e, a[1]), collOf(e, a[0]), unitKey, a[2])
 		return []Value{nilErr()}
 	}
-	// ranges
-	models["cosmossdk.io/collections.NewPrefixedPairRange"] = func(e *Exec, a []Value) []Value {
-		return []Value{&ModelObj{Kind: "pairrange", F: map[string]Value{"prefix": a[0]}}}
-	}
-	models["(*cosmossdk.io/collections.PairRange[K1, K2]).Descending"] = func(e *Exec, a []Value) []Value {
-		r := a[0].(*ModelObj)
-		n := &ModelObj{Kind: "pairrange", F: map[string]Value{"desc": True}}
-		if p, ok := r.F["prefix"]; ok {
-			n.F["prefix"] = p
-		}
-		return []Value{n}
-	}
 }
 
-func rangerOf(e *Exec, v Value) *ModelObj {
-	if iv, ok := v.(IfaceV); ok {
-		if iv.V == nil {
-			return nil
-		}
-		v = iv.V
-	}
+// ---------- ranges ----------
+// A Ranger (collections.Range, PairRange, or any implementation in the repository) is executed from its own
+// code: its RangeValues method yields the start/end RangeKeys, which are interpreted on decoded keys.
+
+type rbound struct {
+	kind int // 0 exact, 1 next, 2 prefix end
+	key  []*Term
+}
+
+// flattenPartial: key components up to the first absent one (PairPrefix leaves k2 nil)
+func (e *Exec) flattenPartial(v Value) []*Term {
 	switch x := v.(type) {
-	case *ModelObj:
-		return x
+	case *Term:
+		return []*Term{x}
+	case *SliceV:
+		return []*Term{e.bytesTerm(x)}
 	case Ptr:
 		if x.O == nil {
 			return nil
 		}
+		return e.flattenPartial(e.peek(x))
+	case *StructV:
+		var out []*Term
+		for _, f := range x.F {
+			if p, ok := f.(Ptr); ok && p.O == nil {
+				break
+			}
+			out = append(out, e.flattenPartial(f)...)
+		}
+		return out
 	case nil:
 		return nil
 	}
-	e.unsupported(fmt.Sprintf("ranger of type %T", v))
+	e.unsupported(fmt.Sprintf("range key of type %T", v))
 	return nil
+}
+
+func (e *Exec) rangeBounds(rv Value) (lo, hi *rbound, desc bool, errv Value) {
+	iv, ok := rv.(IfaceV)
+	if !ok {
+		if rv == nil {
+			return
+		}
+		e.unsupported(fmt.Sprintf("ranger of type %T", rv))
+	}
+	if iv.V == nil {
+		return
+	}
+	if p, ok := iv.V.(Ptr); ok && p.O == nil {
+		// a typed nil pointer inside the interface: RangeValues would dereference it
+		e.goPanicStr("runtime error: invalid memory address or nil pointer dereference (nil ranger)")
+	}
+	if iv.T == nil {
+		e.unsupported("ranger without a dynamic type")
+	}
+	fn := e.methodOf(iv.T, "RangeValues", nil)
+	if fn == nil {
+		e.unsupported("ranger without RangeValues")
+	}
+	rs := e.callFn(fn, []Value{iv.V})
+	if ev, ok := rs[3].(IfaceV); ok && ev.V != nil {
+		return nil, nil, false, ev
+	}
+	get := func(v Value) *rbound {
+		p, ok := v.(Ptr)
+		if !ok || p.O == nil {
+			return nil
+		}
+		sv, ok := e.load(p).(*StructV)
+		if !ok || len(sv.F) != 2 {
+			e.unsupported("unexpected RangeKey shape")
+		}
+		kt, ok := sv.F[0].(*Term)
+		if !ok || !kt.IsConst() {
+			e.unsupported("symbolic range key kind")
+		}
+		return &rbound{kind: int(kt.N.Int64()), key: e.flattenPartial(sv.F[1])}
+	}
+	lo, hi = get(rs[0]), get(rs[1])
+	ord, ok := rs[2].(*Term)
+	if !ok || !ord.IsConst() {
+		e.unsupported("symbolic range order")
+	}
+	switch ord.N.Int64() {
+	case 0:
+	case 1:
+		desc = true
+	default:
+		return nil, nil, false, errIface("cosmossdk.io/collections.errOrder", StrLit("collections: invalid order"))
+	}
+	return
+}
+
+// lexCmp: lexicographic comparison of the first len(b) components; strict: a < b, else a <= b
+func (e *Exec) lexLess(a, b []*Term, kt types.Type, orEqual bool) *Term {
+	res := BoolT(orEqual)
+	for i := len(b) - 1; i >= 0; i-- {
+		lt := e.compLess(a[i], b[i], keyCompSigned(kt, i))
+		var eq *Term
+		if a[i].S == StrSort {
+			eq = strEq(a[i], b[i])
+		} else {
+			eq = Eq(a[i], b[i])
+		}
+		res = Or(lt, And(eq, res))
+	}
+	return res
+}
+
+func isPairKey(kt types.Type) bool {
+	o := namedOrigin(kt)
+	return o == "cosmossdk.io/collections.Pair" || o == "cosmossdk.io/collections.Triple"
+}
+
+func (e *Exec) inRange(key []*Term, lo, hi *rbound, kt types.Type) *Term {
+	chk := func(b *rbound) {
+		if len(b.key) > len(key) {
+			e.unsupported("range bound with more components than the key")
+		}
+		if len(b.key) == 0 {
+			e.unsupported("range bound without key components")
+		}
+		last := b.key[len(b.key)-1]
+		if !isPairKey(kt) && b.kind == 2 && (last.S == StrSort || last.S == BytesSort) {
+			e.unsupported("byte-prefix range over a string/bytes key")
+		}
+		if b.kind == 1 && len(b.key) < len(key) {
+			e.unsupported("exclusive bound on a partial key")
+		}
+	}
+	cs := []*Term{}
+	if lo != nil {
+		chk(lo)
+		m := len(lo.key)
+		switch lo.kind {
+		case 0: // key >= bound
+			cs = append(cs, e.lexLess(lo.key, key[:m], kt, true))
+		default: // next / prefix end: key > bound
+			cs = append(cs, e.lexLess(lo.key, key[:m], kt, false))
+		}
+	}
+	if hi != nil {
+		chk(hi)
+		m := len(hi.key)
+		switch hi.kind {
+		case 0: // key < bound
+			cs = append(cs, e.lexLess(key[:m], hi.key, kt, false))
+		default: // next / prefix end: key <= bound
+			cs = append(cs, e.lexLess(key[:m], hi.key, kt, true))
+		}
+	}
+	return And(cs...)
+}
+
+// invalidRange: the store refuses start > end (ErrInvalidIterator); decided for full exact bounds
+func (e *Exec) invalidRange(lo, hi *rbound, kt types.Type) *Term {
+	if lo == nil || hi == nil || len(lo.key) != len(hi.key) {
+		return nil
+	}
+	off := func(k int) int { // exact = the key itself, next / prefix end = just after it
+		if k == 0 {
+			return 0
+		}
+		return 1
+	}
+	switch {
+	case off(lo.kind) <= off(hi.kind):
+		return e.lexLess(hi.key, lo.key, kt, false) // start > end
+	default:
+		return e.lexLess(hi.key, lo.key, kt, true) // start (after lo) > end (at hi)
+	}
 }
 
 // Field access on model values that stand for structs
